@@ -183,6 +183,10 @@ impl TryFrom<&str> for FeelDaysAndTimeDuration {
   type Error = DmntkError;
   /// Converts a text form of the days and time duration into [FeelDaysAndTimeDuration] struct.
   fn try_from(value: &str) -> Result<Self, Self::Error> {
+    // the designator `T` must be followed by at least one time component
+    if value.ends_with('T') {
+      return Err(invalid_date_and_time_duration_literal(value.to_string()));
+    }
     if let Some(captures) = RE_DAYS_AND_TIME.captures(value) {
       let mut is_valid = false;
       let mut nanoseconds = 0_i128;
